@@ -64,7 +64,7 @@ def rewrite_copy(n, f2):
         c.content = [rewrite_copy(k, f2) for k in n.content]
         return c
     if isinstance(n, Text):
-        return Text(present=n.present, cdata=False, content=f2.S(n.label + '_c', ['other', ' '], register=False), label=n.label)
+        return Text(present=n.present, cdata=False, content=f2.S(n.label + '_c', ['other', ' '], register=True), label=n.label)
     if isinstance(n, Noise):
         return Noise(present=False, kind=0, label=n.label)
     raise ValueError(n)
@@ -90,6 +90,7 @@ class Rewrites(ParseHarness):
             for it in d: form_preconditions(it, self.formpre)
     def preconditions(self): return list(self.fam.pre) + list(self.fam2.pre) + self.formpre
     def consts(self): return list(self.fam.consts) + list(self.fam2.consts)
+    def domains(self): return dict(self.fam.doms, **self.fam2.doms)
     def run(self, m):
         outs = []
         for docs in (self.docs, self.docs2):
@@ -159,6 +160,17 @@ class FieldOrder(ParseHarness):
     name = 'field-order'
     char_ops_forbidden = False
     preset = 'quick_xml_de'
+    def full_names(self):
+        """serde bindings carry LOCAL names; the order clauses are about the XML names. With pools whose local names are pairwise distinct
+        (asserted) the full name is recovered from the local one."""
+        def lut(pool, fn):
+            d = {}
+            for n in pool or []:
+                assert fn(n) not in d, 'pool %r has two names with the same local name' % (pool,)
+                d[fn(n)] = n
+            return d
+        al = lambda n: n if n.startswith('xmlns:') else local_name(n)
+        return lut(self.fam_kw.get('anames'), al), lut(self.fam_kw.get('names'), local_name)
     def run(self, m):
         root, _ = self.parse_all(m, self.scripts())
         if root is None: return {'root': None}
@@ -166,6 +178,7 @@ class FieldOrder(ParseHarness):
     def assertions(self, m, out):
         if out['root'] is None: return [('parse succeeds', False)]
         opts = OPTS[self.preset]; conds = []
+        afull, cfull = self.full_names()
         try:
             su = read_output(out['unsorted']); ss = read_output(out['sorted'])
         except Malformed as e:
@@ -180,7 +193,7 @@ class FieldOrder(ParseHarness):
             if g is None: conds.append((path + ': bindings concrete', False)); return
             kinds = ''.join(k for k, _, _ in g)
             conds.append((path + ': attributes, then text, then children', kinds == 'a' * kinds.count('a') + 't' * kinds.count('t') + 'c' * kinds.count('c') and kinds.count('t') <= 1))
-            an = [n for k, n, _ in g if k == 'a']; cn = [(n, f) for k, n, f in g if k == 'c']
+            an = [afull.get(n, n) for k, n, _ in g if k == 'a']; cn = [(cfull.get(n, n), f) for k, n, f in g if k == 'c']
             aslots = [(c, a.name) for c, a in exp.all_attr_slots()]
             for x, y in zip(an, an[1:]): conds.append(('%s: attribute %s first appears before %s' % (path, x, y), appears_before(aslots, x, y)))
             cslots = [(c, k.name) for c, k in exp.all_child_slots()]
@@ -197,7 +210,7 @@ class FieldOrder(ParseHarness):
             if g is None: conds.append(('sorted: bindings concrete', False)); continue
             kinds = ''.join(k for k, _, _ in g)
             conds.append(('sorted %s: attributes, then text, then children' % st['name'], kinds == 'a' * kinds.count('a') + 't' * kinds.count('t') + 'c' * kinds.count('c')))
-            an = [n.encode() for k, n, _ in g if k == 'a']; cn = [n.encode() for k, n, _ in g if k == 'c']
+            an = [afull.get(n, n).encode() for k, n, _ in g if k == 'a']; cn = [cfull.get(n, n).encode() for k, n, _ in g if k == 'c']
             conds.append(('sorted %s: attributes ordered by XML name' % st['name'], an == sorted(an)))
             conds.append(('sorted %s: children ordered by XML name' % st['name'], cn == sorted(cn)))
         conds.append(('sorted: struct definitions follow a pre-order walk in field order', preorder(ss) == [s['name'] for s in ss]))
